@@ -119,7 +119,7 @@ def synthetic_spec(draw) -> dict[str, Any]:
         if kind == "syn":
             # scripted children: parallel or sequential, some failing, on-failure children, a parent task that may fail,
             # continue-on-failure on the parent, children declared with the workflow instead of by the builder
-            beh = st.sampled_from(["ok", "ok", "ok", "fail"])
+            beh = st.sampled_from(["ok", "ok", "ok", "fail", "failcof"])
             syn = {"before": draw(st.lists(beh, max_size=2)), "after": draw(st.lists(beh, max_size=2)),
                    "parallel": draw(st.booleans()), "pre": draw(st.integers(0, 3)) == 0}
             if not syn["pre"]:
@@ -181,7 +181,7 @@ def run(c: Campaign, jobs: int) -> None:
         "single worker thread; SQLite backend only",
     ]
     for cls in ("kind:racy-fail", "kind:early-join", "feat:before-child", "feat:after-child", "feat:onfail-child", "feat:failing-child",
-                "feat:predeclared-child", "feat:parallel-children", "feat:stopped-failure", "feat:jump", "feat:suspend", "inj:dup-startstage"):
+                "feat:predeclared-child", "feat:parallel-children", "feat:continue-on-failure-child", "feat:stopped-failure", "feat:jump", "feat:suspend", "inj:dup-startstage"):
         if c.classes.get(cls, 0) == 0:
             c.harness_error(f"generator starvation: class {cls} never produced")
 
